@@ -114,7 +114,8 @@ RS = ("var", "R$")
 NUM_CARRIERS = ["sub_both", "sub_both2", "assign", "assign_elem", "sub_rhs", "sub_lhs", "if_noelse", "if_else", "if_elif_cond", "if_arm", "for_start",
                 "for_limit", "for_step", "print_item", "print_at_pos", "on_sel", "dev_cls", "dev_hline", "dev_sound",
                 "dev_hcircle", "dev_poke", "read_sub", "input_sub", "loop_body", "jump_target", "two_statements", "width",
-                "assign_raw", "assign_elem_raw", "print_raw", "print_item_raw", "print_at_raw", "print_last_raw", "print_many"]
+                "assign_raw", "assign_elem_raw", "print_raw", "print_item_raw", "print_at_raw", "print_last_raw", "print_many",
+                "varptr_sub", "varptr_sub2"]
 STR_CARRIERS = ["assign_s", "assign_elem_s", "print_item_s", "print_at_item_s", "if_s_noelse", "if_s_else", "dev_hprint",
                 "dev_hdraw", "loop_body_s", "len_assign"]
 
@@ -141,6 +142,11 @@ def carrier(name, e):
     if name == "print_at_raw":
         return one([("print", [("e", e), ("sep", ";"), ("e", ("str", "!"))], n(5))])
     e = e if e[0] in ("fn", "arr", "par") else ("par", e)
+    if name == "varptr_sub":
+        # the address itself is machine matter (not compared); the calls inside the subscript are not
+        return one([("let", ("var", "VP"), ("fn", "VARPTR", [("arr", "X", [("bin", "AND", e, n(7))])]), False)])
+    if name == "varptr_sub2":
+        return one([("let", ("var", "VP"), ("fn", "VARPTR", [("arr", "Z", [("bin", "+", ("bin", "AND", e, n(3)), n(1)), F("BUTTON", n(0))])]), False)])
     if name == "assign":
         return one([("let", R, e, False)])
     if name == "assign_elem":
@@ -404,7 +410,7 @@ def run_case(case):
         else:
             what = "sequence"
         obs["viols"].append({"sig": "C05/%s/%s" % (what, cls), "detail": dict(detail, expected=str(exp)[:300], got=str(got)[:300])})
-    diffs = [d for d in harness.compare_stores(cb["store"], b["store"]) if d[0] not in ("I",)]
+    diffs = [d for d in harness.compare_stores(cb["store"], b["store"]) if d[0] not in ("I", "VP")]
     if diffs and exp == got:
         obs["viols"].append({"sig": "C05/result-misrouted/" + cls, "detail": dict(detail, diffs=diffs[:4])})
     if b["uninit"] and case.get("init", True):
